@@ -226,6 +226,26 @@ C['C14/explicit-scale-and-keys'] = {
          'velocity': 64, 'dur': 2, 'stretch': 0.5, 'instrument': 'nogate'},
         {'freq': 330.5, 'amp': 0.05, 'pan': -1, 'out': 2, 'sustain': 3,
          'add_action': 'addToTail', 'instrument': 'test'}]}
+C['C14/tunings-with-root-and-stretched-octave'] = {
+    'kind': 'single', 'knobs': KN14, 'clock': 'sys', 'events': [
+        {'degree': 7, 'octave': 6, 'root': 2, 'scale': 'bp', 'harmonic': 3,
+         'dur': 0.125, 'legato': 1.5, 'pan': 0.5, 'instrument': 'default'},
+        {'degree': 2, 'mtranspose': 3, 'root': 2, 'scale': 'et19',
+         'instrument': 'default'},
+        {'note': 5, 'root': -1, 'gtranspose': 1, 'scale': 'et7',
+         'instrument': 'default'},
+        {'degree': -8, 'gtranspose': 1, 'octave': 3, 'scale': 'bp',
+         'harmonic': 0.5, 'db': -20, 'dur': 1.5, 'instrument': 'default'}]}
+C['C11/ancestor-ops-from-nested-routine'] = {
+    'kind': 'seq', 'routines': [
+        {'gen': True, 'inval': False,
+         'steps': [['y', 1], ['nest', 1], ['y', 2], ['y', 3]]},
+        {'gen': True, 'inval': False,
+         'steps': [['anc', 'stop', 0], ['nest', 2], ['y', 'x']]},
+        {'gen': False, 'inval': False,
+         'steps': [['anc', 'reset', 1], ['anc', 'pause', 0]]}],
+    'ops': [['next', 0, None], ['next', 0, None], ['next', 0, None],
+            ['next', 0, None], ['next', 0, None], ['next', 1, None]]}
 
 # ---------------------------------------------------------------- C20
 KN20 = {'policy': 'random', 'lat': 0, 'cost': 0.0, 'stall_pm': 0,
